@@ -53,6 +53,14 @@ def check(ctx):
                   required="alloc, then free, then replace in emission order (later assignments win in the same cycle)")
     call, all_ = unguarded_call(ex, clear, pat("self.replace"))
     ctx.check(call is not None and dict(call.kwargs).get("mask") == pat("self.init"), "C25.clear", clear.site, "PEA.clear", found="; ".join(f"{tstr(c.callee)}({dict(c.kwargs)})" for c in all_) or "no call", required="clear = replace(mask=init)")
+    # the configured initial free mask is kept as given (every bit pattern, also negative ones such as ~0b101, is a mask)
+    from ..pyfacts import Fn
+    from ..stage import Store
+
+    ini = Fn(ctx.repo, REL, "PriorityEncoderAllocator.__init__", "C25")
+    sts = [(ex_, s) for ex_ in ini.exs for s in ex_.of(Store) if s.target == pat("self.init")]
+    okm = bool(sts) and all(s.value[0] == "p" and s.value[1] == ini.fi.qualname and s.value[3] == "init" and not [fr for fr in s.frames if fr[0] == "py"] for _, s in sts) and len(ini.exs) == len({id(e) for e, _ in sts})
+    ctx.check(okm, "C25.init-mask-kept", sts[0][1].site if sts else ini.site, "PEA.init", found="; ".join(sorted({tstr(s.value) for _, s in sts})) or "not stored", required="self.init is the constructor argument, unchanged, on every path")
     a_decl, f_decl = comp.init_attr("alloc"), comp.init_attr("free")
     ok = a_decl is not None and pmatch("Methods(Q_w, o=Q_o)", a_decl) is not None
     ctx.check(ok, "C25.ways", comp.site, "PEA.alloc.ways", found=tstr(a_decl) if a_decl else "none", required="alloc ways declared as Methods", nontrivial=False)
